@@ -37,8 +37,12 @@ type c16Case struct {
 	Shape   int // program shape selector
 	// ptrace-direct: Shape selects seccomp / credential change; Prog selects the program (0 = single sleeper, 1..3 = the
 	// forked trees of c16Program: their members are followed by the tracer or not, but none may outlive it)
-	Prog int    `json:",omitempty"`
-	Tag  string `json:"tag,omitempty"`
+	Prog int `json:",omitempty"`
+	// descriptor layout of the controller: 0 = exec descriptor and /dev/null low, everything else right above them;
+	// 1 = exec descriptor and /dev/null high with free numbers below them (the launch's internal descriptors then land
+	// low, between the listed ones, and nothing the launcher's child moves around touches them)
+	Layout int    `json:",omitempty"`
+	Tag    string `json:"tag,omitempty"`
 }
 
 var c16Points = map[string][]string{
@@ -124,12 +128,23 @@ func c16Controller() {
 		}
 	}
 	s := c16Program(c.Shape)
+	var pads []*os.File
+	if c.Layout == 1 {
+		for i := 0; i < 10; i++ {
+			if f, err := os.Open("/dev/null"); err == nil {
+				pads = append(pads, f)
+			}
+		}
+	}
 	efd, err := probeExecFd()
 	if err != nil {
 		say("infra %v", err)
 		return
 	}
 	dn := devNullFile()
+	for _, f := range pads {
+		f.Close()
+	}
 	switch c.Op {
 	case "unshare":
 		say("started")
@@ -384,7 +399,7 @@ wait:
 		}
 		time.Sleep(5 * time.Millisecond)
 	}
-	cl := []string{"op=" + c.Op, "point=" + c.Point, fmt.Sprintf("shape=%d", c.Shape%4)}
+	cl := []string{"op=" + c.Op, "point=" + c.Point, fmt.Sprintf("shape=%d", c.Shape%4), fmt.Sprintf("controller-descriptor-layout=%d", c.Layout)}
 	if c.Op == "ptrace-direct" {
 		cl = append(cl, fmt.Sprintf("direct(seccomp=%v,cred=%v,program=%d)", c.Shape&1 != 0, c.Shape&2 != 0, c.Prog%4))
 	}
@@ -415,7 +430,7 @@ func TestC16Enumerate(t *testing.T) {
 				shapes = []int{1, 2 + n%2}
 			}
 			for _, sh := range shapes {
-				c := c16Case{Op: op, Point: pt, Shape: sh}
+				c := c16Case{Op: op, Point: pt, Shape: sh, Layout: (n + sh) % 2}
 				if op == "ptrace-direct" && pt == "running" {
 					c.Prog = 1 + (n+sh)%3
 				}
@@ -436,7 +451,11 @@ func TestC16Enumerate(t *testing.T) {
 func TestC16Random(t *testing.T) {
 	rec := vh.NewRecorder(t, "C16", "fault_enumeration", c16Rule)
 	vh.Check(t, rec, func(rt *rapid.T) c16Case {
-		c := c16Case{Op: rapid.SampledFrom([]string{"execve", "execve", "ptrace", "ptrace", "ptrace-direct", "ptrace-direct", "open", "reset", "idle"}).Draw(rt, "op"), Shape: rapid.IntRange(0, 3).Draw(rt, "shape")}
+		c := c16Case{Op: rapid.SampledFrom([]string{"execve", "execve", "ptrace", "ptrace", "ptrace-direct", "ptrace-direct", "unshare", "open", "reset", "idle"}).Draw(rt, "op"), Shape: rapid.IntRange(0, 3).Draw(rt, "shape"),
+			Layout: rapid.IntRange(0, 1).Draw(rt, "layout")}
+		if c.Op == "unshare" {
+			c.Point = "syncfunc" // only the launch hand-shake of the namespace runner is inside the statement
+		}
 		c.DelayUs = rapid.OneOf(rapid.IntRange(0, 2000), rapid.IntRange(0, 20000)).Draw(rt, "delay")
 		if c.Op == "ptrace-direct" {
 			c.Prog = rapid.IntRange(0, 3).Draw(rt, "prog")
